@@ -145,7 +145,33 @@ def check_invalidate(ctx):
     check_forwarder(ctx, inst, "ClockCache::remove_for_record", "ClockCache::remove_entry", [(2, 1)], "the keyed removal looks up the given key")
     check_forwarder(ctx, inst, "ClockCache::get_for_record", "ClockCache::get_entry", [(2, 1)], "the keyed lookup looks up the given key")
     check_forwarder(ctx, inst, "ClockCache::insert_for_record", "ClockCache::insert_entry", [(2, 1), (3, 2)], "the keyed insert caches the given value under the given key")
+    def cond_edges(x):
+        return (A.pred_edges(x, lambda e: e.has_field("FeoxStore", "memory_only"), "true"),
+                A.pred_edges(x, lambda e: e.has_field("FeoxStore", "enable_caching"), "false"),
+                A.pred_edges(x, lambda e: e.has_field("FeoxStore", "cache"), "None"))
     for (b, n, kind) in S.pub_sites(ctx, inst, kinds=("repl",)):
+        if not R.call("ClockCache::remove_for_record")(b):
+            # the tail "drop the stale cache entry, queue the replacement" extracted into a private helper shared by the writers
+            hs = [c for c in b.calls() for t in ctx.prog.targets(c.ev) if t in ctx.prog.bodies and (ctx.prog.bodies[t].raw.get("vis") or "Public") != "Public" and
+                  R.call("ClockCache::remove_for_record")(ctx.prog.bodies[t])]
+            if len(hs) == 1:
+                h = hs[0]
+                hb = [ctx.prog.bodies[t] for t in ctx.prog.targets(h.ev) if t in ctx.prog.bodies][0]
+                R.follow(ctx, inst, b, [n], [h.id], "a replacement is followed by the invalidation helper", b_desc=hb.path.rsplit("::", 1)[-1])
+                old_ok = any(any(("local", l) in A.origins(b, R.arg_expr(b, h, i)) for l in range(len(b.locals)) if "OccupiedEntry" in b.local_ty(l)) or
+                             R.arg_expr(b, h, i).has_call("HashMap::entry") for i in range(len(h.ev["args"])))
+                ctx.check(old_ok, inst, "PROVENANCE", b.path, "the helper is handed the generation that was under the bucket guard", b.where(h.id))
+                rm = ctx.sites(hb, R.call("ClockCache::remove_for_record"), inst, exact=1)
+                mo_true, ec_false, c_none = cond_edges(hb)
+                ctx.check(bool(mo_true) and bool(ec_false) and bool(c_none), inst, "anchor", hb.path, "memory_only / enable_caching / cache are tested", None)
+                r, ps = A.reach(hb, [hb.entry], blocked_nodes=set(rm) | set(A.error_nodes(hb)), blocked_edges=set(mo_true) | set(ec_false) | set(c_none))
+                ctx.check(not any(x in r for x in hb.return_nodes()), inst, "FOLLOW", hb.path, "[persistent, caching, cache present] a replacement is followed by remove_for_record", None)
+                for x in rm:
+                    e = R.arg_expr(hb, hb.nodes[x], 2)
+                    ctx.check(e.k == "arg", inst, "PROVENANCE", hb.path, "the invalidated generation is the one the helper was handed", hb.where(x), {"expr": e.show()[:60]})
+                    ar = R.call("WriteBuffer::add_replacement")(hb)
+                    R.dom(ctx, inst, hb, [x], ar, "[persistent, caching] stale entry dropped before the replacement is queued", blocked_edges=frozenset(set(ec_false) | set(c_none)), a_desc="remove_for_record")
+                continue
         rm = ctx.sites(b, R.call("ClockCache::remove_for_record"), inst, exact=1)
         # on persistent + caching + cache present paths the invalidation follows the replacement
         mo_true = A.pred_edges(b, lambda e: e.has_field("FeoxStore", "memory_only"), "true")
